@@ -7,6 +7,7 @@ differential runs of engine `net`, not proved.
 import Drand.Net.Protocol
 import DrandProofs.C02
 import DrandProofs.C07Net
+import DrandProofs.C07Chain
 
 namespace Drand.Net
 
